@@ -293,10 +293,16 @@ def det_case(ctx, r):
         if len(scores) == 0:
             ctx.stat("tuned_no_scores")
             return
+        # "the (1-level) quantile": any value between the lower and the higher empirical quantile is
+        # one (the statement does not fix the interpolation rule)
+        q_lo = np.quantile(scores, 1 - level, method="lower")
+        q_hi = np.quantile(scores, 1 - level, method="higher")
+        slack = 1e-10 * (1 + abs(q_lo) + abs(q_hi))
         want = np.quantile(scores, 1 - level)
-        if thr is None or not _eq(thr, want, rel=1e-10):
-            ctx.violation(sub, "tuned-quantile", f"{label}: tuned threshold_={thr} != (1-level) "
-                          f"quantile {want} of the {len(scores)} training scores (level={level})", r)
+        if thr is None or not (q_lo - slack <= thr <= q_hi + slack):
+            ctx.violation(sub, "tuned-quantile", f"{label}: tuned threshold_={thr} is not a (1-level) "
+                          f"quantile of the {len(scores)} training scores (between {q_lo} and {q_hi}; "
+                          f"linear interpolation {want}; level={level})", r)
         else:
             N = len(scores)
             bound = N - 1 - int(np.floor((N - 1) * (1 - level) - 1e-9))
